@@ -561,7 +561,7 @@ impl OpsWorld {
             Accept if base_direct => format!("fd:Direct:{}:from:{}", out.res, addr()),
             AcceptNoAddr | MultishotAccept if base_direct => format!("fd:Direct:{}", out.res),
             Accept => format!("fd:File:{}:from:{}", out.res, addr()),
-            AcceptNoAddr | MultishotAccept | OpenFile | Socket | OpenTemp => format!("fd:File:{}", out.res),
+            AcceptNoAddr | MultishotAccept | OpenFile | Socket | OpenTemp | ToFd => format!("fd:File:{}", out.res),
             OpenDirect | SocketDirect => format!("fd:Direct:{}", out.res),
             Pipe | PipeDirect => {
                 let k = if kind == Pipe { "File" } else { "Direct" };
